@@ -57,6 +57,7 @@ type Family struct {
 	Hunt     string
 	Split    bool // one cube per outcome vector (case split across cores)
 	JobCtx   bool
+	SameErr  bool
 	MaxGoex  int
 	PreCanc  bool
 	Timer    bool
@@ -65,17 +66,19 @@ type Family struct {
 }
 
 var (
-	FamPlain     = Family{Name: "plain", Outcomes: []int{OutOK, OutErr}}
-	FamGoexit    = Family{Name: "goexit", Outcomes: []int{OutOK, OutErr, OutGoexit}, MaxGoex: 1}
-	FamPre       = Family{Name: "precancel", Outcomes: []int{OutOK, OutErr}, PreCanc: true}
-	FamJobCancel = Family{Name: "jobcancel", Outcomes: []int{OutOK, OutCancel}}
-	FamTimer     = Family{Name: "timer", Outcomes: []int{OutOK}, Timer: true}
-	FamCancel    = Family{Name: "cancel", Outcomes: []int{OutOK, OutErr, OutCancel}, PreCanc: true, Timer: true}
-	FamHang      = Family{Name: "hang", Outcomes: []int{OutOK, OutHang}, Timer: true}
-	FamErrCtx    = Family{Name: "errctx", Outcomes: []int{OutOK, OutErr, OutErrCanceled}}
-	FamEmit      = Family{Name: "emit", Outcomes: []int{OutOK, OutErr}, Emitter: true, Ticks: 1}
-	FamJobCtx    = Family{Name: "jobctx", Outcomes: []int{OutOK, OutErr}, JobCtx: true}
-	FamEmit2     = Family{Name: "emit2", Outcomes: []int{OutOK, OutErr}, Emitter: true, Ticks: 2}
+	FamPlain      = Family{Name: "plain", Outcomes: []int{OutOK, OutErr}}
+	FamGoexit     = Family{Name: "goexit", Outcomes: []int{OutOK, OutErr, OutGoexit}, MaxGoex: 1}
+	FamPre        = Family{Name: "precancel", Outcomes: []int{OutOK, OutErr}, PreCanc: true}
+	FamJobCancel  = Family{Name: "jobcancel", Outcomes: []int{OutOK, OutCancel}}
+	FamTimer      = Family{Name: "timer", Outcomes: []int{OutOK}, Timer: true}
+	FamCancel     = Family{Name: "cancel", Outcomes: []int{OutOK, OutErr, OutCancel}, PreCanc: true, Timer: true}
+	FamHang       = Family{Name: "hang", Outcomes: []int{OutOK, OutHang}, Timer: true}
+	FamErrCtx     = Family{Name: "errctx", Outcomes: []int{OutOK, OutErr, OutErrCanceled}}
+	FamEmit       = Family{Name: "emit", Outcomes: []int{OutOK, OutErr}, Emitter: true, Ticks: 1}
+	FamJobCtx     = Family{Name: "jobctx", Outcomes: []int{OutOK, OutErr}, JobCtx: true}
+	FamJobCtxExit = Family{Name: "jobctx-goexit", Outcomes: []int{OutOK, OutCancelGoexit}, JobCtx: true, MaxGoex: 1}
+	FamSameErr    = Family{Name: "same-error", Outcomes: []int{OutOK, OutErr}, SameErr: true}
+	FamEmit2      = Family{Name: "emit2", Outcomes: []int{OutOK, OutErr}, Emitter: true, Ticks: 2}
 )
 
 func mkCubes(prefix string, shapes [][][]int, Ns []int, modes []bool, fams []Family) []*Cube {
@@ -84,7 +87,7 @@ func mkCubes(prefix string, shapes [][][]int, Ns []int, modes []bool, fams []Fam
 		for _, n := range Ns {
 			for _, m := range modes {
 				for _, f := range fams {
-					c := &Cube{Deps: sh, N: n, Continue: m, Outcomes: f.Outcomes, PerJob: f.PerJob, Hunt: f.Hunt, JobCtx: f.JobCtx, MaxGoex: f.MaxGoex, PreCanc: f.PreCanc, Timer: f.Timer, Emitter: f.Emitter, Ticks: f.Ticks}
+					c := &Cube{Deps: sh, N: n, Continue: m, Outcomes: f.Outcomes, PerJob: f.PerJob, Hunt: f.Hunt, JobCtx: f.JobCtx, SameErr: f.SameErr, MaxGoex: f.MaxGoex, PreCanc: f.PreCanc, Timer: f.Timer, Emitter: f.Emitter, Ticks: f.Ticks}
 					if !f.Split {
 						out = append(out, c)
 						continue
@@ -145,6 +148,7 @@ func L1Plan(prop, tier string) []*Cube {
 	failSkipThen := [][][]int{{{}, {0}, {}}} // A; B after A; C independent (enqueued last)
 	indepThenDep := [][][]int{{{}, {}, {0}}} // A; C independent; B after A (queued behind C)
 	fanOut3 := [][][]int{{{}, {0}, {0}}}     // A; B and C after A
+	join3 := [][][]int{{{}, {}, {0, 1}}}     // A; B; C after A and B
 	j1 := [][][]int{{{}}}
 	N12 := []int{1, 2}
 	N1 := []int{1}
@@ -164,6 +168,8 @@ func L1Plan(prop, tier string) []*Cube {
 		add("g", append(j1, chain2...), N12, both, FamGoexit)
 		// transitive chain with a failing head: late enqueue behind an invalidated job
 		add("c", chain3, N1, both, Family{Name: "chainfail", Outcomes: []int{OutOK, OutErr}, PerJob: [][]int{{OutErr}, {OutOK}, {OutOK, OutErr}}, Hunt: "job started twice or before"})
+		// fan-in: one dependency fails, the other succeeds afterwards
+		add("k", join3, N1, coe, Family{Name: "joinfail", Outcomes: []int{OutOK, OutErr}, PerJob: [][]int{{OutErr}, {OutOK}, {OutOK}}, Hunt: "job started twice or before"})
 		if !q {
 			add("b", j3, N1, both, FamPlain)
 			add("d", j3wide, N2, both, FamPlain)
@@ -174,6 +180,8 @@ func L1Plan(prop, tier string) []*Cube {
 		// capacity must survive a skipped job: A fails, B (after A) is skipped, C must still be dispatched
 		add("c", failSkipThen, N1, coe, Family{Name: "failskip", Outcomes: []int{OutOK, OutErr}, PerJob: [][]int{{OutErr}, {OutOK}, {OutOK}}, Hunt: "capacity lost"})
 		add("g", append(j1, chain2...), N12, ff, FamGoexit)
+		// a job cancels the context it was enqueued with and exits its goroutine: the worker must still be replaced
+		add("x", [][][]int{{{}, {}}, {{}, {0}}}, N1, both, FamJobCtxExit)
 		if !q {
 			add("b", j3, []int{2}, both, FamPlain)
 			add("h", small, N12, both, FamGoexit)
@@ -225,6 +233,9 @@ func L1Plan(prop, tier string) []*Cube {
 		add("a", small, N12, coe, FamPlain)
 		add("c", chain3, N1, coe, Family{Name: "chainfail", Outcomes: []int{OutOK, OutErr}, PerJob: [][]int{{OutErr}, {OutOK}, {OutOK, OutErr}}, Hunt: "job ran iff"})
 		add("g", append(j1, chain2...), N12, coe, FamGoexit)
+		add("s", [][][]int{{{}, {}}}, N12, coe, FamSameErr) // several jobs fail with one shared error value
+		// fan-in: one dependency fails, the other succeeds afterwards
+		add("k", join3, N1, coe, Family{Name: "joinfail", Outcomes: []int{OutOK, OutErr}, PerJob: [][]int{{OutErr}, {OutOK}, {OutOK}}, Hunt: "job ran iff"})
 		add("p", append(j1, chain2...), N1, coe, FamPre, FamJobCancel)
 		if !q {
 			add("b", j3, N1, coe, FamPlain)
@@ -236,7 +247,10 @@ func L1Plan(prop, tier string) []*Cube {
 		// a dependent becomes ready, waits for the only worker, and the context is cancelled by the job occupying it
 		add("c", indepThenDep, N1, ff, Family{Name: "jobcancel-mid", Outcomes: []int{OutOK, OutCancel}, PerJob: [][]int{{OutOK}, {OutCancel}, {OutOK}}, Hunt: "context was done"})
 		add("j", append(j1, chain2...), N1, both, FamJobCtx) // per-job context: done -> the body never starts; live -> the body receives exactly that context
-		add("t", j1, N1, both, FamTimer, FamHang)            // timer/hang at J=2 take 8-27 min per cube: thorough only
+		// more dependency-free jobs than the scheduler can hold (worker + ready list + enqueue buffer)
+		// while the only worker hangs: the caller must not get stuck in Enqueue once the context is done
+		add("w", [][][]int{{{}, {}, {}, {}}}, N1, ff, Family{Name: "hang-fanout", Outcomes: []int{OutOK, OutHang}, PerJob: [][]int{{OutHang}, {OutOK}, {OutOK}, {OutOK}}, Timer: true, Hunt: "caller stuck although context is done"})
+		add("t", j1, N1, both, FamTimer, FamHang) // timer/hang at J=2 take 8-27 min per cube: thorough only
 		if !q {
 			add("q", small, []int{2}, both, FamPre, FamJobCancel, FamTimer, FamHang)
 			add("u", chain2, N1, both, FamTimer, FamHang)
